@@ -1724,3 +1724,28 @@ Proof.
   unfold pcomp_aff. rewrite peval_pseries, (peval_as_sum p (a * y + b)).
   apply bigsum_ext. intros j Hj. rewrite peval_linpow. reflexivity.
 Qed.
+
+Lemma Qpown_neq0 a p : ~ a == 0 -> ~ Qpown a p == 0.
+Proof. intros Ha. induction p as [|p IH]; cbn [Qpown]; [discriminate|]. intro E. apply Qmult_integral in E. tauto. Qed.
+
+Lemma UD_fac fac p k j : ~ fac == 0 -> UD fac p k j == UD 1 p k j / Qpown fac p.
+Proof.
+  intros Hf. unfold UD. destruct (Nat.eqb (k + p) j); [|unfold Qdiv; ring].
+  rewrite Qpown_1. field. apply Qpown_neq0, Hf.
+Qed.
+
+(* ultraspherical differentiation on an interval: D_p / fac^p gives the C^(p) coefficients (mapped basis) of the p-th derivative *)
+Theorem ultra_diff_mapped_upto64 N p c fac off : (N <= 64)%nat -> (p = 1 \/ p = 2 \/ p = 3)%nat -> ~ fac == 0 ->
+  peq (pderiv_n p (pcomp_aff (/ fac) (- off / fac) (pseries chebT c N)))
+      (pcomp_aff (/ fac) (- off / fac) (pseries (geg p) (mv N (UD fac p) c) N)).
+Proof.
+  intros HN Hp Hf.
+  eapply (@Equivalence_Transitive _ _ peq_Equivalence); [apply pderiv_n_pcomp_aff|].
+  eapply (@Equivalence_Transitive _ _ peq_Equivalence);
+    [apply pscale_peq, pcomp_aff_peq, (ultra_diff_correct_upto64 N p c HN Hp)|].
+  eapply (@Equivalence_Transitive _ _ peq_Equivalence); [apply (@Equivalence_Symmetric _ _ peq_Equivalence), pcomp_aff_pscale|].
+  apply pcomp_aff_peq.
+  eapply (@Equivalence_Transitive _ _ peq_Equivalence); [apply (@Equivalence_Symmetric _ _ peq_Equivalence), pseries_scale|].
+  apply pseries_ext. intros k Hk. unfold mv. rewrite <- bigsum_scal. apply bigsum_ext. intros j Hj.
+  rewrite (UD_fac fac p k j Hf), Qpown_inv by exact Hf. unfold Qdiv. ring.
+Qed.
